@@ -78,6 +78,8 @@ def expected(case):
 def request(case, mode):
     txc = case.get('tx')
     kw = dict(script=case['script'], stack=case['stack'], flags=case['flags'], sv=case['sv'], mode=mode)
+    if mode == 'step':
+        kw['again'] = 2
     if txc:
         kw['tx'] = '0:' + mk_tx(*txc).ser().hex()
     return kvline('run', **kw)
@@ -132,6 +134,15 @@ def check_case(case, ctx, h=None):
                         observed=_short(got), expected=_short(exp))
     if bool(exp['ok']) != bool(got['ok']) or exp['err'] != got['err']:
         raise Violation(case, 'outcome differs: reference %r, debugger %r' % (exp['err'] or 'ok', got['err'] or 'ok'), observed=_short(got), expected=_short(exp))
+    # a failure is final: the debugger lets the user step on after a failed step - every further step fails the same way and leaves the state alone
+    # (a failed step that leaves something behind lets the session reach an end Bitcoin does not reach)
+    if not got['ok'] and 'again' in got:
+        ctx.count('failure-is-final-checked')
+        for a in got['again']:
+            if a['acc'] or a['err'] not in (got['first_err'], 'done'):
+                raise Violation(case, 'after the step that failed with %r a further step %s' % (got['first_err'], 'is accepted' if a['acc'] else 'fails differently (%r)' % a['err']), observed=got['again'], expected=got['first_err'])
+        if not got['again_same_state']:
+            raise Violation(case, 'stepping on after the failed step (%r) changes the session state although every further step fails' % got['first_err'], observed=got['again'])
     # BIP342 layer: a tapscript containing OP_SUCCESSx succeeds unconditionally
     if case['sv'] == R.TAPSCRIPT and first_success_op(case['script']):
         ctx.count('tapscript-with-OP_SUCCESSx')
